@@ -276,6 +276,9 @@ Sample(f, dense) ==
            base == IF dense THEN 1..12 ELSE {1, 2, 3, 5}
        IN  { n \in base \cup (IF dense THEN Pow2 \cup { p - 1 : p \in Pow2 } \cup { p + 1 : p \in Pow2 }
                                         ELSE { 16, 256, 4096 })
+                        \* around the limits an implementation is likely to have (nesting 128; indentation, buffers): members
+                        \* that are still ACCEPTED - and therefore printed, in both forms - as well as the first refused ones
+                        \cup { 31, 32, 33, 64, 100, 127, 128, 129 }
                         \cup { k * step : k \in 1..(N \div step) } \cup {N - 1, N} : n >= 1 /\ n <= N }
 
 Member(f, n) == [family |-> f, n |-> n]
